@@ -28,7 +28,8 @@ def make_case(rng, i, tier):
                          (4, 2), (3, 16), (15, 16), (1, 2), (1, 1)],
                    ongrid=(lambda x: x % 4 == 0 or x % 6 == 0) if (q and rng.random() < 0.5) else None)
     # make sure the meta track reaches far enough often (signatures beyond its end are still on its list)
-    safe = ("touch_defaults", "normalise", "copy", "read_abs", "read_rel", "iter_rel_velocity_edit", "iter_abs_velocity_edit", "set_channel", "transpose", "merge_empty", "qnl")
+    safe = ("touch_defaults", "normalise", "copy", "read_abs", "read_rel", "iter_rel_velocity_edit", "iter_abs_velocity_edit", "transpose", "merge_empty", "qnl")   # (set_channel would merge
+    # the channels of a two-channel track and can make it ill-formed, which is outside what C08/C09 speak about)
     prefixes = [[op for op in random_prefix(rng, n=(1, 2)) if op["op"] in safe and not (op["op"] == "qnl" and not q)] if i % 4 == 3 else [] for _ in pc["tracks"]]
     return {"piece": pc, "quantise": q, "prefixes": prefixes}
 
